@@ -866,11 +866,28 @@ theorem C15_bulkUpdate_invalid (cfg : Cfg) (c : Coll T) (u : UMap T) (hwf : u.WF
     simp only
     rw [if_pos (by omega)]
 
+/-- when no key exceeds `mx`, the bounded walk of the `fix:` for F8 is the plain contiguity check. -/
+theorem co_gapCheckMax_eq (mx : Nat) : ∀ (l : List (Nat × T)) (n : Nat), (∀ q ∈ l, q.1 ≤ mx) →
+    Coll.gapCheckMax mx n l = gapCheck n l := by
+  intro l
+  induction l with
+  | nil => intro n _; rfl
+  | cons q rest ih =>
+    intro n h
+    obtain ⟨k, v⟩ := q
+    have hk : k ≤ mx := h (k, v) (List.mem_cons_self ..)
+    simp only [Coll.gapCheckMax, Coll.gapCheck]
+    by_cases hkn : k = n
+    · rw [if_pos ⟨hkn, hk⟩, if_pos hkn]
+      exact ih (n+1) (fun q hq => h q (List.mem_cons_of_mem _ hq))
+    · rw [if_neg (fun hh => hkn hh.1), if_neg hkn]
+
 /-- with all keys below `N`, a clean `bulk_update` is decided by the contiguity check of the keys
-at or beyond the backing length. -/
+at or beyond the backing length. (`N < 2^64`: keys are `usize` values, and the Rust walks the keys
+up to `usize::MAX`.) -/
 theorem co_bulkUpdate_reduce (hlen : c.length = xs.length) (u : UMap T) (hwf : u.WF)
     (hx : u.MaxExact) (hclean : c.hasPending = false)
-    (hkeys : ∀ k, (u.get k).isSome → k < cfg.N) :
+    (hkeys : ∀ k, (u.get k).isSome → k < cfg.N) (hN : cfg.N < 2 ^ 64) :
     c.bulkUpdate cfg u =
       match gapCheck xs.length (u.range xs.length cfg.N) with
       | some (index, next) => .error (.outOfBoundsUpdate index next)
@@ -885,10 +902,15 @@ theorem co_bulkUpdate_reduce (hlen : c.length = xs.length) (u : UMap T) (hwf : u
   | some mx =>
     obtain ⟨h1, h2⟩ := (UMap.maxIndex_eq_some_iff u hwf hx mx).1 hmi
     have hmx := hkeys mx h1
+    have hall : ∀ q ∈ u.entries, q.1 < mx + 1 := fun q hq => by
+      have := h2 q.1 ((UMap.get_isSome_iff u q.1).2 ⟨q.2, hq⟩); omega
     simp only
-    rw [if_neg (by omega), hlen,
-      range_upper_congr u xs.length (mx + 1) cfg.N (fun q hq => by
-        have := h2 q.1 ((UMap.get_isSome_iff u q.1).2 ⟨q.2, hq⟩); omega) (by omega)]
+    rw [if_neg (by omega), hlen]
+    have hr1 : u.range xs.length (2 ^ 64 - 1) = u.range xs.length (mx + 1) :=
+      (range_upper_congr u xs.length (mx + 1) (2 ^ 64 - 1) hall (by omega)).symm
+    rw [hr1, co_gapCheckMax_eq mx _ _ (fun q hq => by
+        have := (UMap.mem_range_bounds u xs.length (mx + 1) q hq).2; omega),
+      range_upper_congr u xs.length (mx + 1) cfg.N hall (by omega)]
     generalize gapCheck xs.length (u.range xs.length cfg.N) = g
     cases g with
     | none => rfl
@@ -899,9 +921,9 @@ length are not contiguous, with `OutOfBoundsUpdate k next` for the first offendi
 (see `C15_bulkUpdate_gap_spec` for what `k` and `next` are). -/
 theorem C15_bulkUpdate_gap (I : CollInv pf cfg c xs) (u : UMap T) (hwf : u.WF) (hx : u.MaxExact)
     (hclean : c.hasPending = false) (hkeys : ∀ k, (u.get k).isSome → k < cfg.N) (k next : Nat)
-    (hgap : gapCheck xs.length (u.range xs.length cfg.N) = some (k, next)) :
+    (hgap : gapCheck xs.length (u.range xs.length cfg.N) = some (k, next)) (hN : cfg.N < 2 ^ 64) :
     c.bulkUpdate cfg u = .error (.outOfBoundsUpdate k next) := by
-  rw [co_bulkUpdate_reduce I.len u hwf hx hclean hkeys, hgap]
+  rw [co_bulkUpdate_reduce I.len u hwf hx hclean hkeys hN, hgap]
 
 /-- the meaning of a failed contiguity check: `next` is the first index at or after `n` without
 a key, `k` is the smallest key above it. -/
@@ -930,11 +952,11 @@ result and it shows the entries folded over the contents. -/
 theorem C01_bulkUpdate_ok (I : CollInv pf cfg c xs) (u : UMap T) (hkind : u.kind = cfg.map)
     (hwf : u.WF) (hx : u.MaxExact) (hclean : c.hasPending = false)
     (hkeys : ∀ k, (u.get k).isSome → k < cfg.N)
-    (hgap : gapCheck xs.length (u.range xs.length cfg.N) = none) :
+    (hgap : gapCheck xs.length (u.range xs.length cfg.N) = none) (hN : cfg.N < 2 ^ 64) :
     ∃ c', c.bulkUpdate cfg u = .ok c' ∧ CollInv pf cfg c' xs ∧
       Coll.view xs c' = applyEntries xs u.entries ∧ c'.kind = c.kind := by
   refine ⟨{ c with updates := u }, ?_, I.with_updates u ⟨hkind, hwf, ?_, hgap, hx.maxRel _⟩, rfl, rfl⟩
-  · rw [co_bulkUpdate_reduce I.len u hwf hx hclean hkeys, hgap]
+  · rw [co_bulkUpdate_reduce I.len u hwf hx hclean hkeys hN, hgap]
   · intro k v hkv
     exact hkeys k ((UMap.get_isSome_iff u k).2 ⟨v, hkv⟩)
 
@@ -942,7 +964,7 @@ theorem C01_bulkUpdate_ok (I : CollInv pf cfg c xs) (u : UMap T) (hkind : u.kind
 four outcomes of the plain model, decided in this order; never a panic. A rejected call returns
 only the error, so the collection is unchanged. -/
 theorem C15_bulkUpdate_total (I : CollInv pf cfg c xs) (u : UMap T) (hkind : u.kind = cfg.map)
-    (hwf : u.WF) (hx : u.MaxExact) :
+    (hwf : u.WF) (hx : u.MaxExact) (hN : cfg.N < 2 ^ 64) :
     (c.hasPending = true ∧ c.bulkUpdate cfg u = .error .bulkUpdateUnclean) ∨
     (c.hasPending = false ∧ (∃ k, (u.get k).isSome ∧ cfg.N ≤ k) ∧
       c.bulkUpdate cfg u = .error .invalidListUpdate) ∨
@@ -966,9 +988,9 @@ theorem C15_bulkUpdate_total (I : CollInv pf cfg c xs) (u : UMap T) (hkind : u.k
       cases hg : gapCheck xs.length (u.range xs.length cfg.N) with
       | some p =>
         obtain ⟨k, nx⟩ := p
-        exact Or.inl ⟨rfl, hkeys, k, nx, rfl, C15_bulkUpdate_gap I u hwf hx hp hkeys k nx hg⟩
+        exact Or.inl ⟨rfl, hkeys, k, nx, rfl, C15_bulkUpdate_gap I u hwf hx hp hkeys k nx hg hN⟩
       | none =>
-        obtain ⟨c', h1, h2, h3, _⟩ := C01_bulkUpdate_ok I u hkind hwf hx hp hkeys hg
+        obtain ⟨c', h1, h2, h3, _⟩ := C01_bulkUpdate_ok I u hkind hwf hx hp hkeys hg hN
         exact Or.inr ⟨rfl, hkeys, rfl, c', h1, h2, h3⟩
 
 end Bulk
@@ -1447,6 +1469,7 @@ example (k : MapKind) : ∃ c', (exBaseP k).bulkUpdate (exCfgP k) (exU k [(6, 60
   obtain ⟨h1, h2, h3⟩ := exMaxExact k [(6, 60), (2, 20), (7, 70)]
   obtain ⟨c', h4, h5, h6, _⟩ := C01_bulkUpdate_ok (exBaseP_inv k) (exU k [(6, 60), (2, 20), (7, 70)])
     h3 h2 h1 (by cases k <;> decide) (exKeys k _ (by decide)) (by cases k <;> decide)
+    (by show 8 < 2 ^ 64; decide)
   refine ⟨c', h4, h5, ?_⟩
   rw [h6]; cases k <;> decide
 -- rejected: key 7 without key 6
@@ -1454,7 +1477,7 @@ example (k : MapKind) : (exBaseP k).bulkUpdate (exCfgP k) (exU k [(7, 70), (2, 2
     = .error (.outOfBoundsUpdate 7 6) := by
   obtain ⟨h1, h2, _⟩ := exMaxExact k [(7, 70), (2, 20)]
   exact C15_bulkUpdate_gap (exBaseP_inv k) _ h2 h1 (by cases k <;> decide) (exKeys k _ (by decide))
-    7 6 (by cases k <;> decide)
+    7 6 (by cases k <;> decide) (by show 8 < 2 ^ 64; decide)
 example : 6 ≤ 6 ∧ 6 < 7 ∧ 7 < 8 ∧ ((exU .vec [(7, 70), (2, 20)]).get 7).isSome ∧
     (∀ j, 6 ≤ j → j < 6 → ((exU .vec [(7, 70), (2, 20)]).get j).isSome) ∧
     (exU .vec [(7, 70), (2, 20)]).get 6 = none ∧
